@@ -88,7 +88,8 @@ structure DSt where
   steps : Nat := 0
   -- current M case
   obj : Obj Tok := { fields := [], original := none }
-  ghost : Ghost Tok := []
+  track : Track Tok := {}
+  reactivated : Nat := 0  -- restores of a whole attribute after which the modifications subsumed by it were outstanding again
   tags : List String := []
   caseFailed : Bool := false
   caseHash : UInt64 := 7
@@ -114,6 +115,10 @@ structure DSt where
   sDowntime : Nat := 0
   sUser : Nat := 0
   sComment : Nat := 0
+  sObjInArr : Nat := 0    -- S cases whose pinned state holds a typed object inside an array (PerfdataValue in performance_data)
+  sRestoredAbove : Nat := 0  -- S cases that restored an attribute above a still outstanding nested modification
+  killsNoPrev : Nat := 0  -- kills of a write onto a path that did not exist before
+  killsCreate : Nat := 0  -- of these: inside ConfigObjectUtility::CreateObject (a runtime object's config file)
   sWriterKeys : Nat := 0  -- S cases whose modified values hold a dictionary key that is not a plain identifier
   iCases : Nat := 0       -- inventories (reflection types) checked against the pinned attribute list
   iPinned : Nat := 0      -- pinned attributes looked up in an inventory
@@ -166,16 +171,16 @@ def modifyTags (d : DSt) (p : Path) (v : V) : DSt := Id.run do
       | .obj vkvs => if vkvs.any (fun e => !dHas e.1 okvs) then d := addTag d "newkeys"
       | _ => pure ()
     | _ => pure ()
-  if (properPrefixes p).any (fun q => (gLookup q d.ghost).isSome) then d := addTag d "below"
-  if d.ghost.any (fun e => strictBelow p e.1) then d := addTag d "above"
-  if (gLookup p d.ghost).isSome then d := addTag d "again"
+  if (properPrefixes p).any (fun q => (gLookup q d.track.ghost).isSome) then d := addTag d "below"
+  if d.track.ghost.any (fun e => strictBelow p e.1) then d := addTag d "above"
+  if (gLookup p d.track.ghost).isSome then d := addTag d "again"
   if p.any (fun k => k.isEmpty) then d := addTag d "emptytoken"
   return d
 
 def restoreTags (d : DSt) (p : Path) : DSt := Id.run do
   let mut d := d
-  if p.length == 1 && d.ghost.any (fun e => strictBelow p e.1) then d := addTag d "toprestore"
-  if (gLookup p d.ghost).isNone then d := addTag d "restoreunmodified"
+  if p.length == 1 && d.track.ghost.any (fun e => strictBelow p e.1) then d := addTag d "toprestore"
+  if (gLookup p d.track.ghost).isNone then d := addTag d "restoreunmodified"
   return d
 
 def handleMR (d : DSt) (n : Nat) (isM : Bool) (p : Path) (v : V) (post : List String) : IO DSt := do
@@ -200,9 +205,11 @@ def handleMR (d : DSt) (n : Nat) (isM : Bool) (p : Path) (v : V) (post : List St
       -- tags, then the specification on the implementation's own observation
       if ok then d := if isM then modifyTags d p v else restoreTags d p
       let op : MOp Tok := if isM then .modify p v else .restore p
-      if !isM && ok && (gLookup p d.ghost).isSome then
+      if !isM && ok && (gLookup p d.track.ghost).isSome then
         d := { d with rChecked := d.rChecked + 1, caseNontrivial := true }
-      let (verdict, g') := specStepM d.ghost d.obj.fields op ok nowFields
+      let (verdict, g') := specStepM d.track d.obj.fields op ok nowFields
+      if !isM && ok && verdict.isNone && (gLookup p d.track.ghost).isSome && g'.ghost.any (fun e => strictBelow p e.1) then
+        d := { d with reactivated := d.reactivated + 1 }
       match verdict with
       | some cl =>
         if !d.caseFailed then
@@ -210,7 +217,7 @@ def handleMR (d : DSt) (n : Nat) (isM : Bool) (p : Path) (v : V) (post : List St
         d := { d with specfails := d.specfails + 1, caseFailed := true }
       | none => pure ()
       -- continue from the implementation's state (on agreement that is the model's state)
-      return { d with ghost := g', obj := { fields := nowFields, original := nowOrig } }
+      return { d with track := g', obj := { fields := nowFields, original := nowOrig } }
     | _, _, _ => IO.println s!"BADLINE line={n}"; return d
   | _ => IO.println s!"BADLINE line={n}"; return d
 
@@ -356,6 +363,20 @@ def hasWriterKey : Option V → Bool
     | _ => false
   | _ => false
 
+mutual
+/-- number of typed objects nested inside arrays in a getter tree (statistic) -/
+def objInArr (inArr : Bool) : V → Nat
+  | .arr xs => objInArrL xs
+  | .obj kvs => (if inArr && dHas objectTag kvs then 1 else 0) + objInArrM kvs
+  | _ => 0
+def objInArrL : List V → Nat
+  | [] => 0
+  | x :: xs => objInArr true x + objInArrL xs
+def objInArrM : List (Key × V) → Nat
+  | [] => 0
+  | (_, v) :: r => objInArr false v + objInArrM r
+end
+
 def handleS (d : DSt) (n : Nat) (sh : String) (post : List String) : IO DSt := do
   match post with
   | [kn, sbh, sah, cbh, cah, loadedS, orcS, gbh, gah] =>
@@ -399,7 +420,25 @@ def handleS (d : DSt) (n : Nat) (sh : String) (post : List String) : IO DSt := d
       -- Serialize(object, FAState) shows for it, before and after the restart
       let pinned := pinnedState tname
       d := { d with gPinned := d.gPinned + pinned.length }
-      match pinned.find? (fun a => dGet? a gb != dGet? a sb || dGet? a ga != dGet? a sa) with
+      if objInArr false (JValue.obj gb) > 0 then d := { d with sObjInArr := d.sObjInArr + 1 }
+      if (match unhexJson sh with
+          | some (.obj kvs) => (match dGet? "mods".toList kvs, dGet? "restore".toList kvs with
+            | some (.arr ms), some (.arr rs) => rs.any (fun r => match r with
+                | .str a => ms.any (fun m => match m with
+                    | .arr [.str b, _] => strictBelow (splitDots a) (splitDots b)
+                    | _ => false)
+                | _ => false)
+            | _, _ => false)
+          | _ => false) then
+        d := { d with sRestoredAbove := d.sRestoredAbove + 1 }
+      -- model of the getter view after the restart: Deserialize (safe_mode = false) of what was written, objects as objects
+      if !tooDeep then
+        match pinned.find? (fun a => dGet? a ga != (dGet? a sb).map (deserializeT known false)) with
+        | some a =>
+          IO.println s!"MISMATCH line={n} case={d.caseNo} op=S what=getter_after_restore:{String.ofList a}"
+          d := { d with mismatches := d.mismatches + 1 }
+        | none => pure ()
+      match pinned.find? (fun a => (dGet? a gb).map stripTag != dGet? a sb || (dGet? a ga).map stripTag != dGet? a sa) with
       | some a =>
         IO.println s!"MISMATCH line={n} case={d.caseNo} op=S what=getter_vs_serialize:{String.ofList a}"
         d := { d with mismatches := d.mismatches + 1 }
@@ -459,7 +498,7 @@ def handle (d : DSt) (n : Nat) (line : String) : IO DSt := do
     let d := closeCase d
     match unhexJson fh with
     | some (.obj kvs) =>
-      return { d with caseNo := d.caseNo + 1, mCases := d.mCases + 1, obj := { fields := kvs, original := none }, ghost := [],
+      return { d with caseNo := d.caseNo + 1, mCases := d.mCases + 1, obj := { fields := kvs, original := none }, track := {},
                       tags := [], caseFailed := false, caseHash := hashStr 7 fh, inM := true }
     | _ => IO.println s!"BADLINE line={n}"; return { d with caseNo := d.caseNo + 1, inM := false }
   | ["M", ah, vh] =>
@@ -523,11 +562,15 @@ def handle (d : DSt) (n : Nat) (line : String) : IO DSt := do
         let renamed := match w.renameIdx with
           | some i => decide (i < k)
           | none => false
-        let expected := if renamed then Found.new else Found.old
+        -- `…new` kinds: the path did not exist before the write (the complete previous version is "no file")
+        let noPrev := kind.endsWith "new" || kind == "createobj"
+        if noPrev then d := { d with killsNoPrev := d.killsNoPrev + 1 }
+        if kind == "createobj" then d := { d with killsCreate := d.killsCreate + 1 }
+        let expected := if renamed then Found.new else if noPrev then Found.absent else Found.old
         if found != expected then
-          IO.println s!"MISMATCH line={n} case={d.caseNo} op=K what=kill_at:{k};call:{call};impl:{foundS};model:{if renamed then "new" else "old"}"
+          IO.println s!"MISMATCH line={n} case={d.caseNo} op=K what=kill_at:{k};call:{call};impl:{foundS};model:{if renamed then "new" else if noPrev then "absent" else "old"}"
           d := { d with mismatches := d.mismatches + 1 }
-        match specCrash true (decide (w.n ≤ k)) found with
+        match specCrash (!noPrev) (decide (w.n ≤ k)) found with
         | some cl =>
           IO.println s!"SPECFAIL line={n} case={d.caseNo} clause={cl.name} tags={call}"
           d := { d with specfails := d.specfails + 1 }
@@ -563,4 +606,4 @@ def main : IO Unit := do
   let stdin ← IO.getStdin
   let d ← foldLines stdin handle ({} : DSt)
   let d := closeCase d
-  IO.println s!"STATS cases={d.caseNo} steps={d.steps} m_cases={d.mCases} modifies={d.mOps} restores={d.rOps} op_errors={d.mErr} restores_checked={d.rChecked} s_cases={d.sCases} s_typekey={d.sTypeKey} s_modattrs={d.sMods} s_numtext={d.sNumText} s_keytext={d.sKeyText} s_notification={d.sNotification} s_downtime={d.sDowntime} s_user={d.sUser} s_comment={d.sComment} s_writer_keys={d.sWriterKeys} inventories={d.iCases} inventory_pinned={d.iPinned} getters_pinned={d.gPinned} s_too_deep={d.sTooDeep} s_restored_before_dump={d.sRestored} state_file_max_bytes={d.stateFileMax} writes={d.wCases} kills={d.kills} kill_old={d.killOld} kill_new={d.killNew} fault_mkstemp={d.fMkstemp} fault_chmod={d.fChmod} fault_write={d.fWrite} fault_write_partial={d.fWritePartial} fault_fsync={d.fFsync} fault_close={d.fClose} fault_rename={d.fRename} fault_unlink={d.fUnlink} fault_none={d.fEnd} stale_tmp_seen={d.leftovers} stale_tmp_after_dump={d.leftoversAfter} nontrivial={d.nontrivial} mismatches={d.mismatches} specfails={d.specfails}"
+  IO.println s!"STATS cases={d.caseNo} steps={d.steps} m_cases={d.mCases} modifies={d.mOps} restores={d.rOps} op_errors={d.mErr} restores_checked={d.rChecked} reactivated={d.reactivated} s_cases={d.sCases} s_typekey={d.sTypeKey} s_modattrs={d.sMods} s_numtext={d.sNumText} s_keytext={d.sKeyText} s_notification={d.sNotification} s_downtime={d.sDowntime} s_user={d.sUser} s_comment={d.sComment} s_writer_keys={d.sWriterKeys} s_obj_in_array={d.sObjInArr} s_restored_above={d.sRestoredAbove} kills_no_previous={d.killsNoPrev} kills_create_object={d.killsCreate} inventories={d.iCases} inventory_pinned={d.iPinned} getters_pinned={d.gPinned} s_too_deep={d.sTooDeep} s_restored_before_dump={d.sRestored} state_file_max_bytes={d.stateFileMax} writes={d.wCases} kills={d.kills} kill_old={d.killOld} kill_new={d.killNew} fault_mkstemp={d.fMkstemp} fault_chmod={d.fChmod} fault_write={d.fWrite} fault_write_partial={d.fWritePartial} fault_fsync={d.fFsync} fault_close={d.fClose} fault_rename={d.fRename} fault_unlink={d.fUnlink} fault_none={d.fEnd} stale_tmp_seen={d.leftovers} stale_tmp_after_dump={d.leftoversAfter} nontrivial={d.nontrivial} mismatches={d.mismatches} specfails={d.specfails}"
